@@ -23,10 +23,17 @@ use crate::sim::*;
 fn run(ctx: &RunCtx) -> Report {
     let mut report = Report::default();
     let mut rng = Rng::new(ctx.seed);
+    let late_wish = rng.chance(1, 3);
     let net = NetCfg {
         latency_min_us: 500,
         latency_max_us: rng.range(2_000, 80_000),
-        dup_ppm: if rng.chance(1, 2) { rng.range(50_000, 400_000) as u32 } else { 0 },
+        dup_ppm: if late_wish {
+            rng.range(200_000, 500_000) as u32
+        } else if rng.chance(1, 2) {
+            rng.range(50_000, 400_000) as u32
+        } else {
+            0
+        },
         ..NetCfg::default()
     };
     let sim = Sim::new(ctx.seed, net.clone());
@@ -48,6 +55,9 @@ fn run(ctx: &RunCtx) -> Report {
     for i in 0..n_peers {
         rawnet.with_peer(i, |p| p.knows = (0..n_peers).collect());
     }
+    // garbage contacts (1 run in 3): every peer also tells about addresses the OS refuses to send to
+    // (port 0, the broadcast address), so some requests fail in `send_to`
+    let garbage = rng.chance(1, 3);
     // objects
     let key = krpc::signing_key(rng.bytes(32).try_into().unwrap());
     let pk = key.verifying_key().to_bytes();
@@ -66,6 +76,47 @@ fn run(ctx: &RunCtx) -> Report {
     //  3: writes: genuine storers ack, spoofed 301/302/203 errors -> put must be Ok
     let mode = rng.below(4);
     let holder = rng.usize(0, n_peers - 1);
+    // late repliers (1 in 3 of the read runs): the peers form a chain, so the lookup lives for several
+    // rounds, and one or two of them answer only after 0.5..1.6 s - later than the request timeout,
+    // while younger requests keep the lookup alive - with duplication on. A late reply may or may not
+    // be accepted (not judged); it must never be consumed twice.
+    let late = mode <= 1 && n_peers >= 3 && late_wish;
+    let mut late_peers: Vec<usize> = vec![];
+    if late {
+        for i in 0..n_peers {
+            rawnet.with_peer(i, |p| {
+                p.knows = (i + 1..(i + 3).min(n_peers)).collect();
+                p.delay = rng.range(120, 450) * MS;
+            });
+        }
+        late_peers.push(if rng.chance(1, 2) { holder } else { rng.usize(0, n_peers - 1) });
+        if rng.chance(1, 3) {
+            late_peers.push(rng.usize(0, n_peers - 1));
+        }
+        for i in &late_peers {
+            rawnet.with_peer(*i, |p| p.delay = rng.range(520, 1600) * MS);
+        }
+        report.probe("late_replier_runs", 1);
+    }
+    if garbage {
+        for i in 0..n_peers {
+            let n = rng.usize(1, 3);
+            let mut extra = vec![];
+            for _ in 0..n {
+                let mut id = rng.id();
+                if rng.chance(1, 2) {
+                    // close to the targets, so that it is among the candidates
+                    id[..6].copy_from_slice(&imm_target[..6]);
+                }
+                let ip = if public { pub_ip(&mut rng) } else { priv_ip(5000 + rng.usize(0, 200)) };
+                let addr = if rng.chance(1, 2) { SocketAddrV4::new(ip, 0) } else { SocketAddrV4::new(Ipv4Addr::BROADCAST, rng.range(1024, 60000) as u16) };
+                let id = if public && rng.chance(1, 2) { krpc::bep42_id(*addr.ip(), id) } else { id };
+                extra.push((id, addr));
+            }
+            rawnet.with_peer(i, |p| p.extra_nodes = extra);
+        }
+        report.probe("garbage_contact_runs", 1);
+    }
     if mode == 1 {
         rawnet.with_peer(holder, |p| {
             p.immutable.insert(imm_target, value.clone());
@@ -103,7 +154,15 @@ fn run(ctx: &RunCtx) -> Report {
     let victim_ip = if public { pub_ip(&mut rng) } else { priv_ip(1) };
     let mut spec = NodeSpec::new(victim_ip, 6881);
     spec.server_mode = rng.chance(1, 3);
-    spec.bootstrap = addrs.iter().map(|a| a.to_string()).collect();
+    spec.bootstrap = if late {
+        let mut b: Vec<usize> = vec![0];
+        b.extend(late_peers.iter().copied());
+        b.sort();
+        b.dedup();
+        b.iter().map(|i| addrs[*i].to_string()).collect()
+    } else {
+        addrs.iter().map(|a| a.to_string()).collect()
+    };
     let victim_addr = spec.addr();
 
     // spoofer: reacts to each request a genuine peer receives from the victim
@@ -270,6 +329,7 @@ fn run(ctx: &RunCtx) -> Report {
         }
     }
     let dup_fired = sim.stats().duplicated;
+    let holder_late = late_peers.contains(&holder);
     for (c, id) in &ops {
         if let Some(p) = sim.with_op(*id, |o| o.panicked.clone()) {
             report.violate("api-panic", "api-call-panicked", format!("call {c} panicked: {p}"));
@@ -278,13 +338,14 @@ fn run(ctx: &RunCtx) -> Report {
         match sim.take_outcome(*id) {
             Some(Outcome::Immutable(v)) => match mode {
                 0 if v.is_some() => report.violate("spoof-effect", "spoofed-value-surfaced", "get_immutable returned a value that only spoofed responses carried".into()),
-                1 if v.is_none() => report.violate("genuine-reply-lost", "genuine-reply-rejected-after-spoof", format!("get_immutable returned None although genuine peer {} holds the value and answered; spoofs: {:?}", addrs[holder], spoofs.borrow().iter().rev().take(4).collect::<Vec<_>>())),
+                1 if v.is_none() && !holder_late => report.violate("genuine-reply-lost", "genuine-reply-rejected-after-spoof", format!("get_immutable returned None although genuine peer {} holds the value and answered; spoofs: {:?}", addrs[holder], spoofs.borrow().iter().rev().take(4).collect::<Vec<_>>())),
                 _ => {}
             },
             Some(Outcome::Mutable(items)) => match mode {
                 0 if !items.is_empty() => report.violate("spoof-effect", "spoofed-value-surfaced", "get_mutable yielded an item that only spoofed responses carried".into()),
                 1 => {
-                    if items.is_empty() {
+                    if items.is_empty() && holder_late {
+                    } else if items.is_empty() {
                         report.violate("genuine-reply-lost", "genuine-reply-rejected-after-spoof", format!("get_mutable yielded nothing although genuine peer {} holds the item and answered", addrs[holder]));
                     } else if items.len() > 1 {
                         report.violate("exactly-once", "reply-consumed-twice", format!("get_mutable yielded {} items but exactly one genuine peer holds the item (duplicated datagrams in this run: {dup_fired})", items.len()));
@@ -297,7 +358,8 @@ fn run(ctx: &RunCtx) -> Report {
                     report.violate("spoof-effect", "spoofed-value-surfaced", "get_peers yielded the marker peer that only spoofed responses carried".into());
                 }
                 if mode == 1 {
-                    if batches.is_empty() {
+                    if batches.is_empty() && holder_late {
+                    } else if batches.is_empty() {
                         report.violate("genuine-reply-lost", "genuine-reply-rejected-after-spoof", format!("get_peers yielded nothing although genuine peer {} holds a peer and answered", addrs[holder]));
                     } else if batches.len() > 1 {
                         report.violate("exactly-once", "reply-consumed-twice", format!("get_peers yielded {} batches but exactly one genuine peer holds peers", batches.len()));
